@@ -3,6 +3,7 @@ package mcp
 import (
 	"context"
 	"errors"
+	"fmt"
 	"io"
 	"net/http"
 
@@ -404,5 +405,58 @@ func zzC09ClientPOST() {
 	} else {
 		vAssert(vNumSpawned() == 0, "C01.post.non-call-starts-no-handler")
 	}
+	vReach("end")
+}
+
+// ---------------------------------------------------------------- streamableClientConn.Close (C05/C11)
+//
+// Closing the client side of a streamable session tells the server: a DELETE carrying the session id is sent exactly
+// once — unless no session id was ever assigned, or the server has already said the session is gone (404) — whatever
+// else has failed on the connection meanwhile; then the connection's context is cancelled and done is closed. A second
+// Close does nothing more and reports the same result.
+func zzC05ClientConnClose() {
+	env := &zzPostEnv{}
+	zzPost = env
+	c := zzNewClientConn()
+	c.url = "http://srv.example/mcp"
+	c.client = &http.Client{}
+	cancelled := 0
+	c.cancel = func() { cancelled++ }
+	hasSID := vBool("haveSession")
+	if hasSID {
+		c.sessionID = "S1"
+	}
+	var failure error
+	switch vChoice("earlierFailure", 4) {
+	case 1:
+		failure = errors.New("sending \"tools/list\": Bad Request")
+	case 2:
+		failure = fmt.Errorf("sending %q: failed to connect (session ID: %v): %w", "ping", "S1", ErrSessionMissing)
+	case 3:
+		failure = errors.New("failed to decode event: unexpected EOF")
+	}
+	if failure != nil {
+		c.fail(failure)
+	}
+	gone := failure != nil && errors.Is(failure, ErrSessionMissing)
+	err := c.Close()
+	wantDelete := hasSID && !gone
+	if wantDelete {
+		vAssert(len(env.reqs) == 1 && env.reqs[0].Method == http.MethodDelete, "C05.client-close.session-terminated-on-the-server")
+		vAssert(env.reqs[0].Header.Get(sessionIDHeader) == "S1", "C11.client-close.delete-names-the-session")
+		a := env.answers[0]
+		if a.doErr {
+			vAssert(err != nil, "C05.client-close.delete-failure-reported")
+		} else {
+			vAssert(a.body.closes == 1, "C05.client-close.body-closed")
+		}
+		vReach("deleted")
+	} else {
+		vAssert(len(env.reqs) == 0 && err == nil, "C05.client-close.nothing-to-delete")
+		vReach("no-delete")
+	}
+	vAssert(cancelled == 1 && vIsClosed(c.done), "C05.client-close.hanging-requests-released")
+	err2 := c.Close()
+	vAssert(err2 == err && len(env.reqs) <= 1 && cancelled == 1, "C05.client-close.idempotent")
 	vReach("end")
 }
